@@ -498,6 +498,7 @@ fn small_ops(hs: &[Handle], name: usize) -> Vec<Op> {
         v.push(Op::Wrap(*a, name));
         v.push(Op::CloneNode(*a));
         v.push(Op::TextContentMut(*a, "m".into()));
+        v.push(Op::NewDocWith(*a));
         for b in hs {
             v.push(Op::Append(*a, *b));
             v.push(Op::Prepend(*a, *b));
@@ -910,15 +911,27 @@ fn xot_clone_check(case: &str, r: &mut Rng, start: &[ANode], pool: &Pool, out: &
     for a in start { let n = build(&mut st.xot, &st.reg, a); st.learn(n); }
     st.refresh();
     let cfg = HistCfg { steps: 6, refusal_bias: 10, with_clonep: false, with_rmws: false, rmws_pct: 0, clone_pct: 10 };
+    // the store that is copied has, one time in three, consolidation switched off: the copy has to be a store in the same mode
+    if r.chance(1, 3) { let _ = exec(&mut st, &Op::Cons(false)); st.refresh(); }
     for _ in 0..4 { let op = gen_op(r, &st, pool, &cfg); let _ = exec(&mut st, &op); st.refresh(); }
     let snapshot_text = st.readback();
     let names_before: Vec<(String, String)> = st.reg.names.iter().map(|(_, _, id)| { let (l, u) = st.xot.name_ns_str(*id); (l.to_string(), u.to_string()) }).collect();
-    let copy = st.xot.clone();
+    let mk_copy = |st: &Store| Store { xot: st.xot.clone(), reg: Reg { nss: st.reg.nss.clone(), prefixes: st.reg.prefixes.clone(), names: st.reg.names.clone() }, known: st.known.clone(), ever_unconsolidated: st.ever_unconsolidated, cons_off: st.cons_off };
     // the copy reads back as the original, handle for handle, id for id
-    let copy_store = Store { xot: copy, reg: Reg { nss: st.reg.nss.clone(), prefixes: st.reg.prefixes.clone(), names: st.reg.names.clone() }, known: st.known.clone(), ever_unconsolidated: st.ever_unconsolidated, cons_off: st.cons_off };
+    let copy_store = mk_copy(&st);
     if copy_store.readback() != snapshot_text { out.fail(case, "xot-clone-differs", "the cloned Xot reads back differently from the original"); }
-    // mutate the original; the copy must not notice
-    for _ in 0..8 { let op = gen_op(r, &st, pool, &cfg); let _ = exec(&mut st, &op); st.refresh(); }
+    // a second copy goes through the same calls as the original from here on: an equal store reacts equally
+    let mut twin = mk_copy(&st);
+    // mutate the original; the first copy must not notice
+    for step in 0..8 {
+        let op = gen_op(r, &st, pool, &cfg);
+        let a = exec(&mut st, &op); st.refresh();
+        let b = exec(&mut twin, &op); twin.refresh();
+        if outcome_str(&a) != outcome_str(&b) || st.readback() != twin.readback() {
+            out.fail(case, "xot-clone-reacts-differently", &format!("after the Xot was cloned, call {} (`{}`) has another effect in the copy than in the original", step, op_str(&op)));
+            break;
+        }
+    }
     if copy_store.readback() != snapshot_text { out.fail(case, "xot-clone-not-independent", "mutating the original Xot changed the clone"); }
     let names_after: Vec<(String, String)> = copy_store.reg.names.iter().map(|(_, _, id)| { let (l, u) = copy_store.xot.name_ns_str(*id); (l.to_string(), u.to_string()) }).collect();
     if names_before != names_after { out.fail(case, "xot-clone-ids-differ", "a name id denotes another name in the cloned Xot"); }
